@@ -51,4 +51,10 @@ void tmpltext_reset(void);
 extern struct op_entry ops_switch[];
 void switch_reset(void);
 extern int bvp_poisoned;
+extern struct op_entry ops_own[];
+void own_reset(void);
+void own_reset_check(void);
+void bvp_reset_all(void);
+extern int own_leak_seen;
+int own_exit_code(void);
 #endif
